@@ -671,7 +671,7 @@ impl Property for C09 {
     }
 
     fn rule() -> &'static str {
-        "one evaluation = one seeded scenario: a real tree with hostile names, `find START [-sorted] [-depth] TESTS -print0 -exec|-execdir CMD TEMPLATES ; [LATER-TESTS] -printf MARK` where templates carry 0, 1 or several {} per argument, {} embedded in text, and arguments that look like operators; the child-outcome script (exit 0 / 1..255, signals, ENOENT/EACCES/ENOMEM/E2BIG spawn errors) is the fault sequence; in a quarter of the runs the children change the tree (unlink the file, remove or replace a directory about to be entered, create siblings, rename) at a scripted spawn; oracle: over the interleaved history of output records and spawns, every path that reached the action is followed by exactly one spawn with the exact substituted argv (./basename and the parent directory for -execdir), the truth marker follows iff the script said exit 0, find's own status stays 0, and after a mutation every unrelated entry is still evaluated exactly once; distinct = distinct abstract trace; non-trivial = a failing child, spawn error or mutation fired, or a template probe hit"
+        "one evaluation = one seeded scenario: a real tree with hostile names, `find START [-sorted] [-depth] TESTS -print0 -exec|-execdir CMD TEMPLATES ; [LATER-TESTS] -printf MARK` where templates carry 0, 1 or several {} per argument, {} embedded in text, and arguments that look like operators; the child-outcome script (exit 0 / 1..255, signals, ENOENT/EACCES/ENOMEM/E2BIG spawn errors) is the fault sequence; in a quarter of the runs the children change the tree (unlink the file, remove or replace a directory about to be entered, create siblings, rename) at a scripted spawn; oracle: over the interleaved history of output records and spawns, every path that reached the action is followed by exactly one spawn with the exact substituted argv (./basename and the parent directory for -execdir), the truth marker follows iff the script said exit 0, find's own status stays 0, and after a mutation every unrelated entry is still evaluated exactly once; also names that are not valid UTF-8, starting points with directory components, template arguments spelled like find's options, a second -exec/-execdir action right after the first, and (no test before the action) every entry of the reference walk must reach it; distinct = distinct abstract trace; non-trivial = a failing child, spawn error or mutation fired, or a template probe hit"
     }
 
     fn components() -> Value {
